@@ -34,6 +34,7 @@ def getRowFilter (j : Json) : Except String RowFilter := do
   match kind with
   | "none" => pure .none
   | "array" => do let xs ← Driver.get? (List Bool) rf "data"; pure (.array xs)
+  | "int_array" => do let xs ← Driver.get? (List Int) rf "data"; pure (.intArray xs)
   | "field" => do
     let xs ← Driver.get? (List Bool) rf "data"
     let own ← Driver.get? Bool rf "own"
@@ -49,7 +50,12 @@ def getPdFilter (j : Json) : Except String PdFilter := do
   | "none" => pure .none
   | "list" => do let xs ← Driver.get? (List Bool) rf "data"; pure (.list xs)
   | "array" => do let xs ← Driver.get? (List Bool) rf "data"; pure (.array xs)
-  | _ => do let xs ← Driver.get? (List Bool) rf "data"; pure (.field xs)
+  | "int_array" => do let xs ← Driver.get? (List Int) rf "data"; pure (.intArray xs)
+  | "field" => do
+    let xs ← Driver.get? (List Bool) rf "data"
+    let isBool ← Driver.get? Bool rf "is_bool"
+    pure (.field isBool xs)
+  | _ => pure .invalid
 
 def rowsJson (rows : List (List Cell)) : Json := Json.arr (rows.map strs).toArray
 
@@ -60,20 +66,29 @@ def handle : Driver.Handler := fun op j =>
     let rf ← getRowFilter j
     let cf ← getColFilter j
     let crs ← Driver.get? Int j "crs"
-    pure <| Driver.outE (fun (text : List Char) =>
+    -- the lines of the file are written by ExeTera's own `_csv_record` (fixes/D30_NC18a: `csvRecord`); the as-found variant
+    -- (`csv.writer`, `Spec.Csv.renderRow`) is reported next to it so that a tree without the fix is recognised
+    let out (writerow : List Cell → List Char) := Driver.outE (fun (text : List Char) =>
         Json.mkObj [("text", str text), ("reimport", rowsJson (Spec.Csv.parse .exetera text)),
                     ("std", rowsJson (Spec.Csv.parse .std text))])
-      (toCsv Spec.Csv.renderRow f rf cf crs)
+      (toCsv writerow f rf cf crs)
+    pure <| (out csvRecord).setObjVal! "as_found" (out Spec.Csv.renderRow)
   | "c18_to_pandas" => some do
     let f ← getFrame j
     let rf ← getPdFilter j
     let cf ← getColFilter j
-    pure <| Driver.outE (fun (cols : List (Cell × List Cell)) =>
+    -- the result of the repaired variant (fix NC18b) is the model output; the as-found variant is reported next to it so
+    -- that a tree without the fix is recognised (known finding while open, regression once fixed)
+    let out (v : Variant) := Driver.outE (fun (cols : List (Cell × List Cell)) =>
         Json.mkObj [("names", strs (cols.map (·.1))), ("cols", rowsJson (cols.map (·.2)))])
-      (toPandas f rf cf)
+      (toPandas v f rf cf)
+    pure <| (out .repaired).setObjVal! "as_found" (out .asFound)
   | "c18_render" => some do
     let rows ← Driver.get? (List (List String)) j "rows"
     pure <| Driver.okJson (Json.mkObj [("text", str (Spec.Csv.render (rows.map (·.map cell))))])
+  | "c18_record" => some do
+    let rows ← Driver.get? (List (List String)) j "rows"
+    pure <| Driver.okJson (Json.mkObj [("text", str ((rows.map (·.map cell)).flatMap csvRecord))])
   | "c18_parse" => some do
     let texts ← Driver.get? (List String) j "texts"
     let one (t : String) : Json :=
